@@ -384,7 +384,7 @@ pub(crate) fn check_direct(r: &Board) {
     assert!(r.checkers.0 == (sp::s_knight(k) & e & rp.pieces[1]) ^ (sp::s_pawn_att(k, rp.stm) & e & rp.pieces[0]));
 }
 
-// @ob id=O2.1c props=C02,C03,C04,C01 tier=quick kind=proof weight=light fn="Board::make_move_new" desc="SYMBOLIC opponent king (all 64 squares at once), the part of make_move_new BEFORE the slider scan (observed by running with recording EMPTY-ray stand-ins, so the scan has no iterations): both ray accessors are asked about the opponent king's square; pinned is empty; checkers are exactly the mover's knights and pawns attacking that king in the result position (moved knight, knight promotion, pawn push/capture/en-passant capture). With the Verus tail proof O2.1t (scan adds the pointwise slider contributions for EVERY king square) and lemma S1.6 (pointwise == eight ray walks) the result's checkers/pinned equal the from-scratch spec for every king square"
+// @ob id=O2.1c props=C02,C03,C04,C01,C05 tier=quick kind=proof weight=light fn="Board::make_move_new" desc="SYMBOLIC opponent king (all 64 squares at once), the part of make_move_new BEFORE the slider scan (observed by running with recording EMPTY-ray stand-ins, so the scan has no iterations): both ray accessors are asked about the opponent king's square; pinned is empty; checkers are exactly the mover's knights and pawns attacking that king in the result position (moved knight, knight promotion, pawn push/capture/en-passant capture). With the Verus tail proof O2.1t (scan adds the pointwise slider contributions for EVERY king square) and lemma S1.6 (pointwise == eight ray walks) the result's checkers/pinned equal the from-scratch spec for every king square"
 #[kani::proof]
 #[kani::unwind(9)]
 #[kani::stub(crate::magic::get_bishop_rays, crate::vstubs::rec_bishop_rays)]
@@ -399,7 +399,7 @@ fn c02_mmn_direct_checks() {
     kani::cover!(r.checkers.0 != 0);
 }
 
-// @ob id=O2.2c props=C02 also=C03 tier=quick kind=proof weight=light fn="Board::make_move" desc="second entry point, any prior content of the output board: same pre-scan contract as O2.1c (scan anchored on the opponent king, pinned empty, direct knight/pawn checks exact), symbolic king; composes with the Verus tail proof O2.2t"
+// @ob id=O2.2c props=C02,C05 also=C03 tier=quick kind=proof weight=light fn="Board::make_move" desc="second entry point, any prior content of the output board: same pre-scan contract as O2.1c (scan anchored on the opponent king, pinned empty, direct knight/pawn checks exact), symbolic king; composes with the Verus tail proof O2.2t"
 #[kani::proof]
 #[kani::unwind(9)]
 #[kani::stub(crate::magic::get_bishop_rays, crate::vstubs::rec_bishop_rays)]
@@ -759,7 +759,8 @@ pub(crate) fn any_builder() -> BoardBuilder {
     bb
 }
 
-fn try_from_check(symbolic_squares: u64) {
+/// returns whether the builder was accepted WITH an en-passant square recorded (for the callers' reachability covers)
+fn try_from_check(symbolic_squares: u64) -> bool {
     let (bb, codes) = crate::board_builder::k_builder::any_builder_codes(symbolic_squares);
     let (pp, ps, pc, pk) = set_probe();
     let r = Board::try_from(&bb);
@@ -810,6 +811,7 @@ fn try_from_check(symbolic_squares: u64) {
         }
     }
     kani::cover!(ok);
+    ok && want.ep.is_some()
 }
 
 
@@ -822,7 +824,20 @@ fn try_from_check(symbolic_squares: u64) {
 #[kani::stub(crate::magic::get_adjacent_files, crate::vstubs::adjacent_files_cf)]
 #[kani::stub(crate::zobrist::Zobrist::piece, crate::vstubs::zobrist_probe)]
 fn c07_try_from_builder_outer_ranks() {
-    try_from_check(0xffff_0000_0000_ffff);
+    let _ = try_from_check(0xffff_0000_0000_ffff);
+}
+
+// @ob id=O7.1e props=C07,C06 also=C08 tier=quick kind=bounded weight=light bound="the 32 squares of ranks 1,4,5,8 carry any of 13 contents, ranks 2,3,6,7 are empty; side, rights, en-passant file symbolic" fn="TryFrom<&BoardBuilder> for Board,Board::set_ep,BoardBuilder::get_en_passant" desc="same contract as O7.1q with the symbolic squares on the back ranks and the two double-push ranks, so the en-passant clause is exercised non-vacuously in the quick tier: the en-passant square of the built board is the builder's file on the double-push rank and is recorded EXACTLY when a pawn of the side to move stands beside the pushed pawn — the same filter move application uses, hence a built position equals the one reached by play (added after seed C06b was missed: the outer-ranks variant leaves ranks 4/5 empty, so every en-passant request was rejected by the gatekeeper before the filter mattered)"
+#[kani::proof]
+#[kani::unwind(66)]
+#[kani::stub(crate::board::Board::update_pin_info, upi_spec)]
+#[kani::stub(crate::board::Board::is_sane, is_sane_spec)]
+#[kani::stub(crate::magic::get_rank, crate::vstubs::rank_cf)]
+#[kani::stub(crate::magic::get_adjacent_files, crate::vstubs::adjacent_files_cf)]
+#[kani::stub(crate::zobrist::Zobrist::piece, crate::vstubs::zobrist_probe)]
+fn c07_try_from_builder_ep_ranks() {
+    let ep_recorded = try_from_check(0xff00_00ff_ff00_00ff);
+    kani::cover!(ep_recorded);
 }
 
 // @ob id=O7.1 props=C07 also=C06,C08 tier=thorough kind=proof weight=medium fn="TryFrom<&BoardBuilder> for Board,Board::set_ep,Board::add_castle_rights,BoardBuilder::get_en_passant" desc="for a FULLY symbolic builder (any of 13 contents on each of the 64 squares, any side, rights, en-passant file — far more men than a chess set included): the conversion never panics and never reads out of bounds; Ok(b) exactly when the gatekeeper spec holds of the assembled board; then b's placement is the builder's placement square by square, side and rights are the builder's, the en-passant square is the builder's file on the double-push rank of the side that just moved and is recorded exactly when a pawn of the side to move stands beside it, and checkers/pinned equal the from-scratch spec. Callees update_pin_info / is_sane are used through their contracts O3.1 / O5.1"
@@ -834,7 +849,8 @@ fn c07_try_from_builder_outer_ranks() {
 #[kani::stub(crate::magic::get_adjacent_files, crate::vstubs::adjacent_files_cf)]
 #[kani::stub(crate::zobrist::Zobrist::piece, crate::vstubs::zobrist_probe)]
 fn c07_try_from_builder() {
-    try_from_check(!0u64);
+    let ep_recorded = try_from_check(!0u64);
+    kani::cover!(ep_recorded);
 }
 
 // @ob id=O7.canary props=C07,C05 tier=quick kind=canary fn="Board::is_sane" desc="deliberately false: is_sane accepts every board with one king per side — must FAIL"
